@@ -40,18 +40,118 @@ class _Gen(OpGen):
 
 def plan(tier, seed):
     # + the repository's own test-suite, unedited, as one more workload under the same monitor
-    return [common.pytest_spec()] + common.session_plan(PROP, tier, seed, quick=160, thorough=3000)
+    return [common.pytest_spec(),
+            {"kind": "plain", "n": 150 if tier == "quick" else 2500,
+             "seed": common.seed_for(PROP, tier, seed, "plain")}] + \
+        common.session_plan(PROP, tier, seed, quick=160, thorough=3000)
 
 
 def run_shard(spec):
     if spec.get("kind") == "pytest":
         return common.run_pytest_shard(spec, PROP)
+    if spec.get("kind") == "plain":
+        import random
+
+        acc = common.new_acc()
+        plain_tracks_cases(random.Random(spec["seed"]), acc, spec["n"])
+        return common.finish_acc(acc)
     return common.run_sessions(spec, PROP, make_monitors, cfg_fn, nsteps=(8, 20),
                                weights=WEIGHTS, refusal_rate=0.3, opgen=_Gen)
 
 
+def plain_tracks_cases(rng, acc, n):
+    """Read-only operations on a plain `Tracks` object (not a solution: no track ids, no
+    lineage ids, possibly merges) - what a candidate graph or an unfinished annotation is.
+    Whether the operation accepts such an object or refuses it, it must leave it alone."""
+    import random as _r
+    import shutil
+    import warnings
+
+    import numpy as np
+    from funtracks.data_model import Tracks
+    from funtracks.import_export import export_to_csv, export_to_geff, save_tracks
+    from funtracks.import_export._utils import filter_graph_with_ancestors
+    from funtracks.import_export.geff._export import split_position_attr
+
+    from .. import env
+    from ..canon import deep, diff, diff_sections
+
+    wd = env.workdir("c16p")
+    try:
+        for i in range(n):
+            cfg = gen.random_config(rng, p3d=0.15, builds=("noids",), extras=False)
+            cfg.custom = False
+            r2 = _r.Random(cfg.seed)
+            forest = gen.random_forest(r2, cfg.T, cfg.max_per_frame, cfg.id_kind, cfg.skip_prob,
+                                       p_empty=cfg.p_empty, p_root=cfg.p_root)
+            if not forest.times:
+                continue
+            seg = gen.make_segmentation(r2, forest, cfg.frame_shape(), thick=cfg.thick,
+                                        dtype=np.dtype(cfg.seg_dtype)) if cfg.seg else None
+            g = gen.build_graph(cfg, forest, r2, with_ids=False, time_key="time")
+            axes = ["z", "y", "x"] if cfg.ndim == 4 else ["y", "x"]
+            with warnings.catch_warnings():
+                warnings.simplefilter("ignore")
+                t = Tracks(g, segmentation=seg, scale=cfg.scale_list(), ndim=cfg.ndim,
+                           pos_attr=axes if cfg.pos_mode == "axes" else None)
+            nodes = [int(x) for x in t.graph.nodes]
+            sub = set(rng.sample(nodes, rng.randint(1, len(nodes))))
+            u = f"{i}-{rng.randrange(1 << 30)}"
+            ops = {
+                "export_to_csv": lambda: export_to_csv(t, wd / f"a{u}.csv"),
+                "export_to_csv/display": lambda: export_to_csv(t, wd / f"b{u}.csv",
+                                                               use_display_names=True),
+                "export_to_csv/subset": lambda: export_to_csv(t, wd / f"c{u}.csv",
+                                                              node_ids=sub),
+                "export_to_geff": lambda: export_to_geff(t, wd / f"g{u}.zarr"),
+                "export_to_geff/subset": lambda: export_to_geff(t, wd / f"h{u}.zarr",
+                                                                node_ids=sub),
+                "save_tracks": lambda: save_tracks(t, wd / f"s{u}"),
+                "split_position_attr": lambda: split_position_attr(t),
+                "filter_graph_with_ancestors": lambda: filter_graph_with_ancestors(
+                    t.graph, set(sub)),
+                "queries": lambda: (t.nodes(), t.edges(), t.in_degree(), t.out_degree(),
+                                    t.get_positions(nodes, incl_time=True),
+                                    t.get_times(nodes), t.get_available_features(),
+                                    t.features.dump_json()),
+            }
+            for name in rng.sample(sorted(ops), 3):
+                before = deep(t, counters=True)
+                err = None
+                with warnings.catch_warnings():
+                    warnings.simplefilter("ignore")
+                    try:
+                        ops[name]()
+                    except Exception as e:  # refusing a non-solution is fine
+                        err = type(e).__name__
+                after = deep(t, counters=True)
+                acc["evaluations"] += 1
+                c = acc["counters"]
+                c["plain-tracks-operations"] = c.get("plain-tracks-operations", 0) + 1
+                c[f"plain-{name.split('/')[0]}"] = c.get(f"plain-{name.split('/')[0]}", 0) + 1
+                if err:
+                    c["plain-tracks-operation-refused"] = \
+                        c.get("plain-tracks-operation-refused", 0) + 1
+                acc["keys"].add(f"plain/{name}/{'refused:' + err if err else 'ok'}/"
+                                f"{'seg' if cfg.seg else 'noseg'}")
+                if before != after:
+                    acc["violations"].append({
+                        "clause": "read-only-changed-state",
+                        "what": f"{name} on a plain Tracks object "
+                                f"({'raised ' + err if err else 'completed'}) changed "
+                                f"{diff_sections(before, after)}: {diff(before, after)[:5]}",
+                        "key": f"C16/changed/plain-tracks/{name.split('/')[0]}",
+                        "replay": {"kind": "plain", "note": "re-run with a fresh generator"}})
+                    return
+            if i % 20 == 19:
+                shutil.rmtree(wd, ignore_errors=True)
+                wd.mkdir(parents=True, exist_ok=True)
+    finally:
+        shutil.rmtree(wd, ignore_errors=True)
+
+
 def floors(tier):
-    return {"sessions": 100, "op-export_to_csv": 200, "op-export_to_geff": 100,
+    return {"plain-tracks-operations": 200, "plain-export_to_csv": 50, "sessions": 100, "op-export_to_csv": 200, "op-export_to_geff": 100,
             "op-save_tracks": 40, "op-split_position_attr": 40,
             "op-filter_graph_with_ancestors": 40, "op-queries": 200}
 
@@ -59,4 +159,10 @@ def floors(tier):
 def replay(doc):
     if doc.get("kind") == "pytest":
         return common.replay_pytest(doc, PROP)
+    if doc.get("kind") == "plain":
+        import random
+
+        acc = common.new_acc()
+        plain_tracks_cases(random.Random(7), acc, 300)
+        return acc["violations"]
     return common.replay_sessions(doc, make_monitors)
